@@ -6,6 +6,7 @@ const { rewriteJobs } = require('../lib/pipeline')
 const { analyze } = require('../lib/structan')
 const { cfg, STRING_METHODS } = require('../lib/configs')
 const { Rng, hashStr, clip, chunk } = require('../lib/util')
+const PH = require('../lib/pkghistory')
 
 // (unknown words - including the empty string, prefixes of a level name and names with surrounding blanks - mean the documented default)
 const VERBOSITIES = [undefined, 'OFF', 'MANDATORY', 'INFORMATION', 'DEBUG', 'debug', 'Off', 'junk', '', 'o', 'Of', 'd', 'DEB', 'INFO', 'M', 'OFFF', ' OFF', 'DEBUG ', 'mandatory', 'o\uFB00']
@@ -89,19 +90,75 @@ function check (job, resp, prefix) {
   return { r, violations }
 }
 
+// metrics of every call of a history through the real main.js (CacheRewriter / NonCacheRewriter on shared instances):
+// file name and status echo THIS call, the count equals the hook call sites of the content handed out
+function runPackageShard (spec, ctx) {
+  const rep = { evaluations: 0, distinct: [], violations: [], inconclusive: [], samples: [], counters: {}, sets: { verbosities: [] } }
+  const bump = (k, n = 1) => { rep.counters[k] = (rep.counters[k] || 0) + n }
+  for (let h = 0; h < spec.histories; h++) {
+    const rng = new Rng(ctx.seed, 'c15pkg', spec.stream, h)
+    let hist
+    try { hist = PH.runHistory(rng, `c15_${spec.stream}_${h}`) } catch (e) { rep.inconclusive.push({ reason: 'package-history-failed', detail: String(e && e.message).slice(0, 200) }); continue }
+    bump('package_histories')
+    const shape = hist.calls.map(c => `${c.kind}@${c.file.split('/').slice(-3).join('/')}`)
+    for (const c of hist.calls) {
+      const r = c.response
+      if (!r || r.error !== undefined) { bump('package_calls_failed'); continue }
+      rep.evaluations++
+      bump('package_calls')
+      const m = r.metrics
+      const seen = new Set()
+      const push = (kind, what) => { const sig = `package:${kind}`; if (seen.has(sig)) return; seen.add(sig); rep.violations.push({ sig, what: `${what} (call #${c.step} of history [${shape.join(', ')}], ${c.rewriter}, config ${c.cfgName})`, witness: { packageHistory: hist.calls.map(x => ({ kind: x.kind, file: x.file, code: x.code, cfgName: x.cfgName, rewriter: x.rewriter })), step: c.step } }) }
+      if (!m) { push('no-metrics', 'no metrics object in the result'); continue }
+      if (m.file !== c.file) push('file', `metrics.file ${m.file} != file passed ${c.file}`)
+      if (r.literalsResult && r.literalsResult.file !== undefined && r.literalsResult.file !== c.file) bump('literals_file_differs_from_call') // reported under C16
+      const eff = effective(c.config.telemetryVerbosity)
+      rep.sets.verbosities.push(String(c.config.telemetryVerbosity))
+      if (m.status === 'notmodified') {
+        if (r.content !== c.code) push('status', 'status notmodified but the content is not the caller\'s text')
+        if (m.instrumentedPropagation !== 0) push('count', `not modified but instrumentedPropagation=${m.instrumentedPropagation}`)
+        continue
+      }
+      if (m.status !== 'modified') { push('status', `metrics.status ${m.status}`); continue }
+      let sites
+      const parsed = A.parseAuto(r.content)
+      if (!parsed.ast) { rep.inconclusive.push({ reason: 'content-unparsable', detail: String(parsed.error).slice(0, 100) }); continue }
+      sites = A.census(parsed.ast).sites
+      rep.distinct.push(hashStr(c.code + c.file + c.cfgName + c.step))
+      bump('hook_sites_counted', sites.length)
+      if (!sites.length) push('status', 'status modified but the content has no hook call site')
+      if (eff === 'OFF') {
+        if (m.instrumentedPropagation !== 0) push('off-count', `verbosity OFF but instrumentedPropagation=${m.instrumentedPropagation}`)
+        if (m.propagationDebug !== null && m.propagationDebug !== undefined) push('off-breakdown', 'verbosity OFF but a breakdown was produced')
+        continue
+      }
+      if (m.instrumentedPropagation !== sites.length) push('count', `instrumentedPropagation=${m.instrumentedPropagation} but the content handed out has ${sites.length} hook call site(s)`)
+      if (eff === 'DEBUG') {
+        if (m.propagationDebug === null || m.propagationDebug === undefined) push('debug-missing', 'verbosity DEBUG but no propagationDebug')
+        else { const sum = Object.values(m.propagationDebug).reduce((a, b) => a + b, 0); if (sum !== sites.length) push('breakdown', `propagationDebug sums to ${sum}, ${sites.length} hook call site(s) emitted`) }
+      } else if (m.propagationDebug !== null && m.propagationDebug !== undefined) push('breakdown-unexpected', `verbosity ${eff} but a breakdown was produced`)
+    }
+    if (rep.samples.length < 1) rep.samples.push({ package_history: shape })
+  }
+  return rep
+}
+
 module.exports = {
   id: 'C15',
   level: 'exploration',
-  rule: 'conservation check per result: metrics.instrumentedPropagation must equal the number of `_ddiast.<dst>(` call sites in the emitted code (census on the acorn AST of the raw output); under DEBUG the per-tag map must equal the partition of those sites by the aligned input operation (+, +=, Tpl, method source name); OFF => 0 and no breakdown; other levels => no breakdown; status/file echo the call. Workload: every permutation (length<=2 quick, <=3 thorough, longer sampled) of 16 statements mixing instrumented, literal-only, disabled, excluded, optional-chain and nested operations, x 8 verbosity spellings, plus corpus/catalogue/random programs. distinct_nontrivial = distinct (input, config) whose output has >= 1 hook site. Workload additions: corpus files with enabled operations spliced onto randomly chosen expression nodes (25 wrappers x every expression slot; only texts V8 still compiles), the syntax zoo with LF/CRLF/CR line endings, a CRLF slice of the corpus.',
+  rule: 'conservation check per result: metrics.instrumentedPropagation must equal the number of `_ddiast.<dst>(` call sites in the emitted code (census on the acorn AST of the raw output); under DEBUG the per-tag map must equal the partition of those sites by the aligned input operation (+, +=, Tpl, method source name); OFF => 0 and no breakdown; other levels => no breakdown; status/file echo the call. Workload: every permutation (length<=2 quick, <=3 thorough, longer sampled) of 16 statements mixing instrumented, literal-only, disabled, excluded, optional-chain and nested operations, x 8 verbosity spellings, plus corpus/catalogue/random programs. distinct_nontrivial = distinct (input, config) whose output has >= 1 hook site. Package layer: call histories (8-28 calls) through the real main.js on shared CacheRewriter / NonCacheRewriter instances, over paths that share base names and carry byte-identical code, checking that file name and status echo THIS call and that the count equals the hook call sites of the content handed out. Workload additions: corpus files with enabled operations spliced onto randomly chosen expression nodes (25 wrappers x every expression slot; only texts V8 still compiles), the syntax zoo with LF/CRLF/CR line endings, a CRLF slice of the corpus.',
   assumptions: ['hook call sites are counted syntactically in the emitted code; the prologue contains none', 'tag attribution needs the erased output to align with the input (C02); unaligned files only get the count check'],
   plan (ctx) {
     const perms = planPerms(ctx)
     const shards = chunk(perms, 400).map((c, i) => ({ kind: 'perms', perms: c, stream: i }))
     for (const s of structPlan(ctx, { quickCorpus: 250, exec: { quickRandom: 1500, quickFormsPerPlacement: 6 } })) shards.push(s)
+    // the metrics as the package API (main.js) hands them out, over call histories on shared instances
+    for (let k = 0, n = ctx.tier === 'thorough' ? 96 : 12; k < n; k++) shards.push({ kind: 'package', stream: 5000 + k, histories: 3 })
     return shards
   },
   minEvaluations () { return 300 },
   async runShard (spec, ctx) {
+    if (spec.kind === 'package') return runPackageShard(spec, ctx)
     let js
     if (spec.kind === 'perms') {
       js = spec.perms.map((idxs, i) => {
